@@ -29,15 +29,20 @@ def drm_selection(allow_none=True):
 def event_options():
     """events= plus schedule options for the selected generators (interval > 0: the documented domain)."""
     def sched(prefix):
-        return st.fixed_dictionaries({}, optional={
-            f"{prefix}__count": st.integers(0, 30).map(str),
-            f"{prefix}__duration": st.integers(1, 2000).map(str),
-            f"{prefix}__inband": st.sampled_from(["1", "0"]),
-            f"{prefix}__interval": st.one_of(st.integers(1, 3000), st.sampled_from([100, 400, 1000])).map(str),
-            f"{prefix}__start": st.integers(0, 5000).map(str),
-            f"{prefix}__timescale": st.sampled_from(["1", "10", "100", "1000", "240", "90000"]),
-            f"{prefix}__version": st.sampled_from(["0", "1"]),
-        })
+        # the interval is drawn in milliseconds (>= 100 ms) and converted to the schedule's timescale, so the
+        # event density stays realistic (an interval of one 90 kHz tick means 360000 emsg boxes per segment:
+        # bounded, but minutes of CPU - that is exercised by C16 only)
+        def build(ts):
+            return st.fixed_dictionaries({f"{prefix}__timescale": st.just(str(ts))}, optional={
+                f"{prefix}__count": st.integers(0, 30).map(str),
+                f"{prefix}__duration": st.integers(1, 2000).map(str),
+                f"{prefix}__inband": st.sampled_from(["1", "0"]),
+                f"{prefix}__interval": st.one_of(st.integers(100, 30000), st.sampled_from([1000, 4000, 10000])).map(
+                    lambda ms: str(max(1, ms * ts // 1000))),
+                f"{prefix}__start": st.integers(0, 60000).map(lambda ms: str(ms * ts // 1000)),
+                f"{prefix}__version": st.sampled_from(["0", "1"]),
+            })
+        return st.sampled_from([1, 10, 100, 1000, 240, 90000]).flatmap(build)
     return st.sampled_from(["ping", "scte35", "ping,scte35"]).flatmap(
         lambda ev: st.tuples(*[sched(p) for p in ev.split(",")]).map(
             lambda ds: {"events": ev, **{k: v for d in ds for k, v in d.items()}}))
